@@ -203,6 +203,59 @@ func runReadOrder(c *Ctx, r *RuleRun) {
 			ok := hasFact(u.ins, func(cm Cmp) bool {
 				return cm.Op == "==" && cm.Y != nil && ((ofElem(cm.X) && recv(cm.Y)) || (ofElem(cm.Y) && recv(cm.X)))
 			})
+			if hc, isCall := elem.(*ssa.Call); isCall && !ok {
+				// the element was looked up by a helper: elementOf(list, mt) answers nil or the element whose value is mt,
+				// and the removal happens only for a non-nil answer
+				if h := hc.Call.StaticCallee(); h != nil && h.Pkg == u.fn.Pkg && len(h.Blocks) > 0 {
+					byValue := -1
+					good := true
+					nret := 0
+					eachInstr(h, func(i2 ssa.Instruction) {
+						ret, isRet := i2.(*ssa.Return)
+						if !isRet || len(ret.Results) != 1 {
+							return
+						}
+						nret++
+						rv := retOperand(ret, 0)
+						var ways [][]Cmp
+						if len(ret.Block().Preds) > 1 && instrIndex(ret) <= 1 {
+							for _, pb := range ret.Block().Preds {
+								ways = append(ways, edgeFacts(pb, ret.Block()))
+							}
+						} else {
+							ways = append(ways, factsAt(ret))
+						}
+						for _, facts := range ways {
+							okWay := isNilConst(rv)
+							for _, f0 := range facts {
+								for _, cm := range []Cmp{f0, f0.Flip()} {
+									if cm.Op != "==" || cm.Y == nil {
+										continue
+									}
+									if cm.X == rv && isNilConst(cm.Y) {
+										okWay = true
+									}
+									if pr, isParam := cm.Y.(*ssa.Parameter); isParam && p.dependsOn(cm.X, func(x ssa.Value) bool { return x == rv }) {
+										for k, q := range h.Params {
+											if q == pr {
+												byValue = k
+												okWay = true
+											}
+										}
+									}
+								}
+							}
+							if !okWay {
+								good = false
+							}
+						}
+					})
+					nonNil := hasFact(u.ins, func(cm Cmp) bool { return cm.Op == "!=" && cm.X == elem && cm.Y != nil && isNilConst(cm.Y) })
+					if good && nret > 0 && byValue >= 0 && byValue < len(hc.Call.Args) && nonNil && recv(hc.Call.Args[byValue]) {
+						ok = true
+					}
+				}
+			}
 			r.Check(ok, p.FnName(u.fn), "immutables remove flushed", p.Pos(instrPos(u.ins)), "removes the element holding the memtable received from flushC",
 				"the element removed from DB.immutables is not tied to the memtable that was just flushed: with several memtables queued an unflushed one becomes unreachable and its committed keys read as not-found")
 		}
@@ -509,13 +562,31 @@ func runReadHit(c *Ctx, r *RuleRun) {
 		if !ok {
 			return
 		}
-		found := retOperand(ret, 1)
+		found := cellValue(retOperand(ret, 1)) // (named results of a deferring function live in cells)
 		if isConstBool(found, false) {
 			return
 		}
 		viaValue := false
 		if ex, ok := found.(*ssa.Extract); ok {
 			viaValue = callTo(p, ex.Tuple, valueFn) != nil
+		}
+		if viaValue && !sameKeyFact(ret) {
+			// the hit is decided by a boolean helper or closure of the package that this rule does not read into (it may
+			// well carry the same-key test): undecided, not a violation
+			if boolFactIs(ret, func(v ssa.Value) bool {
+				cl, ok := v.(*ssa.Call)
+				if !ok {
+					return false
+				}
+				h := cl.Call.StaticCallee()
+				return h != nil && h.Pkg == search.Pkg && resultIs(h, types.Bool) && p.FuncMayDo(h, func(i ssa.Instruction) bool {
+					c2, ok := i.(*ssa.Call)
+					return ok && c2.Call.StaticCallee() == isSame
+				})
+			}, true) {
+				r.Undecided(p.FnName(search), "found-return", p.Pos(instrPos(ret)), "the hit is decided inside a boolean helper that calls IsSameKey; this rule reads the test only in DB.search and its lookup helpers")
+				return
+			}
 		}
 		r.Check(viaValue && sameKeyFact(ret), p.FnName(search), "found-return", p.Pos(instrPos(ret)), "same user key, value through types.Value",
 			"a lookup result is returned without the same-user-key test or without going through types.Value: a neighbouring key's value or a deleted value is returned")
@@ -873,6 +944,9 @@ func runOracleRestart(c *Ctx, r *RuleRun) {
 	fromM := func(v ssa.Value) bool { return callTo(p, v, mrec) != nil }
 	fromL := func(v ssa.Value) bool { return callTo(p, v, lrec) != nil }
 	isMax := func(v ssa.Value) bool {
+		if isOpenCodedMax(v) {
+			return true
+		}
 		call, ok := v.(*ssa.Call)
 		if !ok {
 			return false
@@ -2167,4 +2241,29 @@ func fetchSitesOf(p *Prog, f, fetch *ssa.Function) []fetchSite {
 	})
 	sort.SliceStable(out, func(i, j int) bool { return instrPos(out[i].Site) < instrPos(out[j].Site) })
 	return out
+}
+
+// isOpenCodedMax: a merge phi that takes a new value only on an edge on which that value was seen to be greater than
+// (or not smaller than) the value it replaces - `if v > m { m = v }`.
+func isOpenCodedMax(v ssa.Value) bool {
+	ph, ok := v.(*ssa.Phi)
+	if !ok || len(ph.Edges) < 2 {
+		return false
+	}
+	for i, e := range ph.Edges {
+		x := unconv(e)
+		for _, f0 := range edgeFacts(ph.Block().Preds[i], ph.Block()) {
+			for _, cm := range []Cmp{f0, f0.Flip()} {
+				if (cm.Op != ">" && cm.Op != ">=") || cm.Y == nil || unconv(cm.X) != x {
+					continue
+				}
+				for j, o := range ph.Edges {
+					if j != i && unconv(o) == unconv(cm.Y) {
+						return true
+					}
+				}
+			}
+		}
+	}
+	return false
 }
